@@ -51,6 +51,36 @@ CHECKS["C09"] = dict(
    text="Identifier alphabet {x, y, 1, 2, *}: every identified record type of each version (S, P, ID-tagged L/C; S, E, G, O, U) under each identifier plus lines that only mention identifiers; add, rm and rename to every identifier, depth in evidence.coverage.bfs. Every transition is classified by gfamc/ref/doc.py as legal (the written records must equal the model, i.e. a rename substitutes the identifier exactly), clash (must raise NotUniqueError and leave the full observation unchanged) or left open. In every state: names has no duplicates and matches the model namespace, line/segment/try_get_line return exactly the carrying line or nothing for 9 probe identifiers, unused_name() is not in use.",
    note="Left open as documented merges: equal/complement link, multi-line groups, group renamed onto a group; renaming onto a mentioned-but-undefined identifier.",
    ref="3 C09", engine="H")
+CHECKS["C06"] = dict(
+   technique="bounded-exhaustive enumeration of GFA1 and GFA2 graphs converted by the real code, compared record by record with an independent coordinate/alignment model (gfamc/ref/edges.py)",
+   text="GFA1->GFA2: every L over 3 topologies x 4 orientation pairs x all CIGARs of <= 3 ops that fit the segments (quick {M,I,D}x{1,2}; thorough {M,I,D,P,=,X}x{1,2,3}) x named/unnamed x sequence/LN; every C at every offset; P lines of 1-3 oriented segments, linear and circular, each edge stored direct or as complement. GFA2->GFA1: the whole 4 orientation pairs x 10 x 10 (begin,end) table of E lines x {a->b, a->a} x named/unnamed x alignment; G, F, U, custom and internal E next to a convertible edge; O lines over 8 orientation triples x edge side x 5 item styles. Oracle clauses: edge-view, line-conversion, edge, segment, tags, edge-id, path, records, string-vs-object, refusal, invalid-output (vlevel-3 parse of the converted text), round-trip.",
+   note="Reference gfamc/ref/edges.py anchored at run time on the 800 hand-labelled edges of tests/testdata/gfa2_edges_classification.gfa; whole-segment overlaps only checked for valid output and intervals.",
+   ref="3 C06", engine="I")
+CHECKS["C11"] = dict(
+   technique="exhaustive enumeration of the (orientation pair) x (interval kind)^2 table and of L/C/G shapes x arrival orders on the real code, compared with a first-principles classification",
+   text="E lines: 4 orientation pairs x 10 (begin,end) pairs per side (all 7 interval kinds) with the classified segment as sid1, sid2 and both, sequence `*` and given, 3 arrival orders; L, C and G lines for {A->B, B->A, A->A} x 4 orientation pairs x {one, named, two parallel}; all ordered pairs of 24 GFA1 edges; thorough: after renaming either segment, removing the unrelated edge/segment and the edge itself, at vlevel 0, 1, 3. Compared: the seven back-reference collections as multisets, derived collections, neighbours/containers/contained, gfa.dovetails/containments, is_dovetail/containment/internal, from_end/to_end, other_end, other.",
+   note="Reference rule re-derived from the specification in gfamc/ref/edges.py and anchored on the 800 at:Z: labels shipped with the repository (self-test in every run; failure = harness error).",
+   ref="3 C11", engine="I")
+CHECKS["C12"] = dict(
+   technique="exhaustive enumeration of links x all short CIGARs (algebra) and of all arrival orders of {S,S,L,complement,P} (graph behaviour) on the real code",
+   text="Every link over {A->B, A->A} x 4 orientation pairs x (`*` + all 2 954 CIGARs of <= 3 ops over {M,I,D,P,=,X,H} x {1,2}) (quick: a complete sub-family of 7 176): double complement is the identity textually, reference/query lengths exchanged, is_same/is_complement/is_eql against independently built lines (the link, its complement and up to six differing links), receiver and arguments unchanged; adding the complement is accepted, adds nothing, leaves the stored text; a differing link is a second edge; every permutation of {S A, S B, L, complement, P} x path forward/reversed x overlaps: path.links finds the stored link object with orient + iff the path runs in the stored direction; all paths of 2-3 oriented segments over {A,B,C}.",
+   note="Left open by the property and not exercised: `*` against a specified overlap, re-adding a textually equal link, S/N operations.",
+   ref="3 C12", engine="I+S")
+CHECKS["C14"] = dict(
+   technique="complete enumeration of small GFA1/GFA2 graphs, linear_paths/merge_linear_paths executed on the real code, result compared with an independent chain/spelling model (gfamc/ref/graph.py)",
+   text="Every GFA1 graph on <= 3 (quick) / <= 4 (thorough) segments with distinct 3-letter sequences, every set of <= 3 / <= 4 links over ALL unordered end pairs (hairpins, self-links, parallels), both record forms, overlaps {*,1M,2M}, `*`+LN variants, decorated variants (H, #, C, P), and GFA2 twins: linear_paths() equals the reference maximal chains modulo reversal/rotation; after merge_linear_paths() the spelled sequence (reverse complement, overlap cut), LN, outward dovetails with ends, untouched lines, component contraction, the C02 invariant and idempotence must match the prediction; a merge that raises must leave the Gfa unchanged.",
+   note="gfapy's returned path is used only as the choice of direction/rotation (and checked to be a legal chain); merged names, count and tracking tags are not demanded. One known finding (GFA2 re-attached edges).",
+   ref="3 C14", engine="I")
+CHECKS["C15"] = dict(
+   technique="complete enumeration of small graphs x segment x factor x distribution policy x copy names, multiply() executed on the real code and judged by a text-level predictor (gfamc/ref/multiply.py)",
+   text="Every GFA1 graph on <= 3 segments with <= 3 links over all end pairs (self-links, hairpins), <= 1 containment, count tags on every record; every subset of {RC,FC,KC} on segments and edges; copy-name families (automatic, given, taken by a segment/path, repeated, own name, names already ending in *n); GFA2 twins with unnamed and named edges; parallel links and self-containment: factors -1,0,1,2,3 x policies off/auto/equal/L/R. Clauses: copy count/names/equality, count division, every edge copied exactly once per copy, nothing invented, identifiers distinct, rest of the graph textually unchanged, factor 1 no-op, factor 0 = rm, negative refused, distribution strands no neighbour and really distributes, C02 invariant, written form re-parses, copies share no tag value.",
+   note="Reference anchored at run time on the 22 stored results of tests/testdata/links_distri.* (must accept all, reject 2 corruptions each). `auto` policy judged leniently (documentation leaves the end open); floor or ceiling division accepted.",
+   ref="3 C15", engine="I")
+CHECKS["C16"] = dict(
+   technique="complete enumeration of small GFA1/GFA2 graphs plus explicit-state BFS over mutation histories, topology queries on the real code vs union-find on the written text",
+   text="The C14 graph family, GFA2 twins, GFA2 graphs mixing dovetail/containment/internal E lines over all orientation pairs and interval kinds, and every state of a depth-3/4 history search over four universes: connected_components() is a partition equal to the union-find partition over dovetails only, segment_connected_component(s) is s's class (by name and by line), n_dovetails/n_containments/n_internals/n_dead_ends equal the counts obtained from the text by the reference classification.",
+   note="Reference classification anchored on the 800 labelled edges; states with placeholder segments are expanded but not judged; remove_small_components is not judged.",
+   ref="3 C16", engine="I+H")
 NOT_BUILT = {}
 
 def main():
